@@ -241,10 +241,9 @@ Proof. unfold bits. rewrite N.pow_add_r. apply N.mod_mul_r; apply pow2_nz. Qed.
 
 Theorem roundtrip_compressed i v g cb : cluster_shift i = cb -> 9 <= cb <= 21 ->
   s_l2_valid cb v = true -> s_l2_compressed v = true ->
-  s_l2_clength cb v < 2 ^ cb ->
   l2_from_mapping cb (l2_into_mapping i v g) = v.
 Proof.
-  intros Hcs Hcb Hv Ec Hlen.
+  intros Hcs Hcb Hv Ec.
   unfold s_l2_valid in Hv. rewrite Ec in Hv.
   apply andb_prop in Hv as [Hlt Hv]. apply andb_prop in Hv as [Hc63 Hhi].
   apply N.ltb_lt in Hlt. apply negb_true_iff in Hc63. apply N.eqb_eq in Hhi.
@@ -319,12 +318,24 @@ Proof.
   remember (s_l2_coffset cb v mod 512) as x. remember (s_l2_csectors cb v) as s. lia.
 Qed.
 
+Lemma csectors_lt cb v : 9 <= cb <= 21 -> s_l2_csectors cb v < 2 ^ (cb - 8).
+Proof.
+  intros H. unfold s_l2_csectors, bits, s_x. replace (62 - (62 - (cb - 8))) with (cb - 8) by lia.
+  apply mod_pow2_lt.
+Qed.
+
+Lemma clength_le cb v : 9 <= cb <= 21 -> s_l2_clength cb v <= 2 ^ 23.
+Proof.
+  intros H. unfold s_l2_clength. pose proof (csectors_lt cb v H).
+  pose proof (pow2_le_mono (cb - 8) 13 ltac:(lia)). change (2 ^ 13) with 8192 in *. change (2 ^ 23) with 8388608.
+  remember (s_l2_csectors cb v) as s. remember (s_l2_coffset cb v mod 512) as x. lia.
+Qed.
+
 Lemma into_mapping_pre i v g cb : cluster_shift i = cb -> 9 <= cb <= 21 ->
   s_l2_valid cb v = true -> sg_cluster_offset i g <= 72057594037927935 ->
-  (s_l2_compressed v = true -> s_l2_clength cb v < 2 ^ cb) ->
   from_mapping_pre cb (l2_into_mapping i v g).
 Proof.
-  intros Hcs Hcb Hv Hg Hlen.
+  intros Hcs Hcb Hv Hg.
   assert (Hrt : l2_from_mapping cb (l2_into_mapping i v g) = v).
   { destruct (s_l2_compressed v) eqn:Ec.
     - apply roundtrip_compressed; auto.
@@ -350,7 +361,14 @@ Proof.
   - unfold l2_into_mapping. rewrite Hcs, l2_compressed_range_spec by assumption.
     destruct (s_l2_compressed v) eqn:Ec; cbn [m_source m_clen m_copied m_offset].
     + right; right; right; left. repeat split; try reflexivity.
-      eexists _, _. repeat split; try reflexivity; [apply clength_ge1|auto].
+      eexists _, _. repeat split; try reflexivity; [apply clength_ge1|apply clength_le; assumption|].
+      (* the recomputed sector count is the stored one *)
+      unfold s_l2_clength. change 511 with (2 ^ 9 - 1). rewrite land_pow2m1. change (2 ^ 9) with 512.
+      pose proof (N.mod_lt (s_l2_coffset cb v) 512 ltac:(discriminate)) as Hm.
+      pose proof (csectors_lt cb v Hcb) as Hs.
+      remember (s_l2_csectors cb v) as s. remember (s_l2_coffset cb v mod 512) as x.
+      replace ((s + 1) * 512 - x - 1 + x) with (511 + s * 512) by lia.
+      rewrite N.div_add by discriminate. rewrite N.div_small by reflexivity. exact Hs.
     + destruct (l2_is_zero v); cbn [m_source m_clen m_copied m_offset].
       * right; right; left. repeat split; try reflexivity.
         destruct (l2_cluster_offset v =? 0); cbn; intros; congruence.
